@@ -518,7 +518,14 @@ func (c *Ctx) rulesC11(pkgs []string) {
 		pm + ":DefaultRelationsResolver.NewAutoMutation", pm + ":Transition.statesToSet", pm + ":Transition.setupExitEnter",
 		pm + ":Machine.setActiveStates", pm + ":Transition.setupAccepted",
 	} {
-		f := c.fn(k)
+		// the private helpers may be renamed or inlined; the resolver's
+		// interface methods are required
+		var f *ssa.Function
+		if strings.Contains(k, ":DefaultRelationsResolver.") {
+			f = c.fn(k)
+		} else {
+			f = c.fnOpt(k)
+		}
 		if f == nil {
 			continue
 		}
